@@ -1,0 +1,41 @@
+//go:build verif
+
+// Verification exports (add-only, compiled only with -tags verif) for the cluster harness of /verif
+// (properties C01/C02). Read-only, no logic.
+package server
+
+import "github.com/oxia-db/oxia/server/wal"
+
+// VerifClusterLeaderCommitOffset returns the quorum tracker's commit offset of a leader controller
+// (-1 if there is no tracker). It does not take the controller lock (BecomeLeader holds it while it waits
+// for the election head to commit); it is the same read the WAL's commit-offset provider performs.
+func VerifClusterLeaderCommitOffset(l LeaderController) int64 {
+	lc, ok := l.(*leaderController)
+	if !ok {
+		return wal.InvalidOffset
+	}
+	return lc.CommitOffset()
+}
+
+// VerifClusterLeaderHasTracker tells whether the controller currently owns a quorum tracker
+// (i.e. BecomeLeader got past its checks in the current term and no NewTerm closed it since).
+func VerifClusterLeaderHasTracker(l LeaderController) bool {
+	lc, ok := l.(*leaderController)
+	if !ok {
+		return false
+	}
+	return lc.quorumAckTracker != nil
+}
+
+// VerifClusterLeaderHasCursor tells whether the leader controller has a cursor for the follower.
+// Takes the controller's read lock: only call it while no BecomeLeader/AddFollower is running on the controller.
+func VerifClusterLeaderHasCursor(l LeaderController, follower string) bool {
+	lc, ok := l.(*leaderController)
+	if !ok {
+		return false
+	}
+	lc.RLock()
+	defer lc.RUnlock()
+	_, found := lc.followers[follower]
+	return found
+}
